@@ -142,6 +142,8 @@ func Name(cn string) pkix.Name {
 type ChainOpts struct {
 	Tag            string // makes subjects unique
 	Intermediate   bool
+	Intermediates  int  // number of intermediate CAs (overrides Intermediate when > 0)
+	SelfSignedLeaf bool // chain of length 1: a self-signed signing certificate
 	LeafSubject    *pkix.Name
 	LeafRawSubject []byte
 	LeafKey        crypto.Signer
@@ -166,21 +168,30 @@ func (c *Chain) X509() []*x509.Certificate {
 
 // MakeChain mints a chain that passes notation-core-go's code-signing chain validation.
 func MakeChain(o ChainOpts) *Chain {
-	pl := 0
-	if o.Intermediate {
-		pl = 1
-	}
-	root := MakeCert(CertOpts{Subject: Name("root " + o.Tag), CA: true, PathLen: pl, NotBefore: o.RootNB, NotAfter: o.RootNA})
-	issuer := root
-	certs := []*Cert{root}
-	if o.Intermediate {
-		inter := MakeCert(CertOpts{Subject: Name("intermediate " + o.Tag), CA: true, PathLen: 0, Parent: root, NotBefore: o.InterNB, NotAfter: o.InterNA})
-		certs = append([]*Cert{inter}, certs...)
-		issuer = inter
-	}
 	ls := Name("leaf " + o.Tag)
 	if o.LeafSubject != nil {
 		ls = *o.LeafSubject
+	}
+	if o.SelfSignedLeaf {
+		leaf := MakeCert(CertOpts{Subject: ls, RawSubject: o.LeafRawSubject, Key: o.LeafKey,
+			EKU: []x509.ExtKeyUsage{x509.ExtKeyUsageCodeSigning}, NotBefore: o.LeafNB, NotAfter: o.LeafNA})
+		return &Chain{Certs: []*Cert{leaf}}
+	}
+	n := o.Intermediates
+	if n == 0 && o.Intermediate {
+		n = 1
+	}
+	root := MakeCert(CertOpts{Subject: Name("root " + o.Tag), CA: true, PathLen: n, NotBefore: o.RootNB, NotAfter: o.RootNA})
+	issuer := root
+	certs := []*Cert{root}
+	for k := 0; k < n; k++ {
+		name := "intermediate " + o.Tag
+		if n > 1 {
+			name = fmt.Sprintf("intermediate%d %s", k+1, o.Tag)
+		}
+		inter := MakeCert(CertOpts{Subject: Name(name), CA: true, PathLen: n - 1 - k, Parent: issuer, NotBefore: o.InterNB, NotAfter: o.InterNA})
+		certs = append([]*Cert{inter}, certs...)
+		issuer = inter
 	}
 	leaf := MakeCert(CertOpts{Subject: ls, RawSubject: o.LeafRawSubject, Parent: issuer, Key: o.LeafKey,
 		EKU: []x509.ExtKeyUsage{x509.ExtKeyUsageCodeSigning}, NotBefore: o.LeafNB, NotAfter: o.LeafNA})
